@@ -25,7 +25,7 @@ def sh(cmd, cwd=None, env=None, timeout=3600):
 def main(ids):
     manifest = json.load(open(os.path.join(VERIF, 'MANIFEST.json')))
     claimed = [c['property_id'] for c in manifest['checks']]
-    ids = ids or [i for i in sorted(os.listdir(os.path.join(VERIF, 'seeded'))) if i in claimed]
+    ids = ids or [i for i in sorted(os.listdir(os.path.join(VERIF, 'seeded'))) if i[:3] in claimed and os.path.isdir(os.path.join(VERIF, 'seeded', i))]
     shutil.rmtree(SCR, ignore_errors=True)
     os.makedirs(SCR)
     sh(['git', 'clone', '-q', '/repo', SCR + '/repo'])
@@ -35,12 +35,13 @@ def main(ids):
     results = json.load(open(out_path)) if os.path.exists(out_path) else {}
     head = sh(['git', '-C', '/repo', 'rev-parse', '--short', 'HEAD'])[1].strip()
     try:
-        for pid in ids:
+        for sid in ids:
+            pid = sid[:3]       # seeded/C09b is a second change for property C09
             t0 = time.time()
             sh(['git', 'checkout', '-q', '--', '.'], cwd=SCR + '/repo')
-            code, o = sh(['git', 'apply', os.path.join(VERIF, 'seeded', pid, 'patch.diff')], cwd=SCR + '/repo')
+            code, o = sh(['git', 'apply', os.path.join(VERIF, 'seeded', sid, 'patch.diff')], cwd=SCR + '/repo')
             if code != 0:
-                results[pid] = {'applies': False, 'log': o[-400:]}
+                results[sid] = {'applies': False, 'log': o[-400:]}
                 continue
             code, o = sh(['/venv/bin/python', '-W', 'ignore', 'tools/check.py', pid, 'quick'], cwd=SCR + '/verif', env=env)
             lines = o.split('\n')
@@ -49,11 +50,11 @@ def main(ids):
             for i, l in enumerate(lines):
                 if l.startswith('VIOLATION') and i + 1 < len(lines):
                     what.append(lines[i + 1].strip()[:300])
-            results[pid] = {'applies': True, 'repo_head': head, 'exit': code, 'violations': len(viol),
+            results[sid] = {'applies': True, 'repo_head': head, 'exit': code, 'violations': len(viol),
                             'with_failing_input': len([v for v in viol if 'no-failing-input-found' not in v]),
                             'first': viol[:3], 'what': what[:3], 'summary': [l for l in lines if ' quick: ' in l][-1:],
                             'seconds': round(time.time() - t0)}
-            print(pid, results[pid]['exit'], results[pid]['violations'], results[pid]['with_failing_input'], flush=True)
+            print(sid, results[sid]['exit'], results[sid]['violations'], results[sid]['with_failing_input'], flush=True)
             json.dump(results, open(out_path, 'w'), indent=1, sort_keys=True)
     finally:
         shutil.rmtree(SCR, ignore_errors=True)
